@@ -41,6 +41,8 @@ def make_jobs(rng, d, njobs, nfiles):
         fs = lang.FileSpec(rng, max_rows=6, named_header=False)
         ncols = fs.ncols
         hdr = [rng.choice(NASTY_HEADERS) for _ in range(ncols)]
+        if rng.random() < 0.6:
+            hdr[rng.randrange(ncols)] = rng.choice(NASTY_HEADERS[-5:])      # a name on which cleaning is not idempotent
         dia = {"delimiter": rng.choice([",", ";", "|"]), "quotechar": rng.choice(['"', "'"])}
         records = [hdr] + fs.records
         # the same file name in different directories: a registration is known by its content AND its source file name
